@@ -24,13 +24,14 @@ import (
 // the receiver's history, String total on success).
 
 type c03Case struct {
-	Target  string    `json:"target"`
-	V2019   bool      `json:"header_2019"`
-	Dialect int       `json:"dialect,omitempty"`
-	ExtID   byte      `json:"ext_id,omitempty"`
-	Body    kit.Hex   `json:"body"`
-	Prior   []kit.Hex `json:"prior_bodies_parsed_by_the_reused_receiver"`
-	Origin  string    `json:"origin"`
+	Target   string    `json:"target"`
+	V2019    bool      `json:"header_2019"`
+	Dialect  int       `json:"dialect,omitempty"`
+	ExtID    byte      `json:"ext_id,omitempty"`
+	Body     kit.Hex   `json:"body"`
+	Prior    []kit.Hex `json:"prior_bodies_parsed_by_the_reused_receiver"`
+	Origin   string    `json:"origin"`
+	HookOnce bool      `json:"extension_hook_attached_once,omitempty"` // T0x0200+ext only
 }
 
 // meLocation is the README pattern: a 0x0200 handler with the five Su-Biao extension parsers.
@@ -41,9 +42,16 @@ type meLocation struct {
 	E66 model.T0x0200AdditionExtension0x66
 	E67 model.T0x0200AdditionExtension0x67
 	E70 model.T0x0200AdditionExtension0x70
+	// once: the extension hook is attached when the handler is first used and never again (the pattern of the
+	// repository's own tests); otherwise before every Parse (the README pattern)
+	once, attached bool
 }
 
 func (l *meLocation) Parse(jtMsg *jt808.JTMessage) error {
+	if l.once && l.attached {
+		return l.T0x0200.Parse(jtMsg)
+	}
+	l.attached = true
 	l.T0x0200.CustomAdditionContentFunc = func(id uint8, content []byte) (model.AdditionContent, bool) {
 		switch id {
 		case 0x64:
@@ -90,7 +98,7 @@ type receiver struct {
 func newReceiver(c c03Case) *receiver {
 	switch {
 	case c.Target == "T0x0200+ext":
-		return &receiver{c.Target, &meLocation{}}
+		return &receiver{c.Target, &meLocation{once: c.HookOnce}}
 	case c.Target == "jt808.Decode":
 		return &receiver{c.Target, jt808.NewJTMessage()}
 	case c.Target == "jt1078.Decode":
@@ -537,6 +545,9 @@ func validBody(t *rapid.T, c *c03Case, label string) []byte {
 func genC03For(target string) func(t *rapid.T) c03Case {
 	return func(t *rapid.T) c03Case {
 		c := c03Case{Target: target, V2019: rapid.Bool().Draw(t, "hdr2019")}
+		if target == "T0x0200+ext" {
+			c.HookOnce = rapid.Bool().Draw(t, "hook_once")
+		}
 		if usesDialect(target) {
 			c.Dialect = rapid.IntRange(1, 5).Draw(t, "dialect")
 		}
